@@ -1,38 +1,144 @@
 /-
   C12 — Activations are the cue-wise sums of weights on every code path.
+
+  Main theorems
+  * `activation_matrix_spec` — about `activationMatrix` ITSELF (the function that
+    mirrors `activation()` on a labelled matrix): if it returns `M`, entry
+    `(k, i)` of `M` is the sum of the weights of outcome `i` over what the
+    duplicate policy and `ignore_missing_cues` leave of the cues of event `k`;
+  * `activation_raises` / `activation_ok_iff` — the error cases: `ValueError` on
+    a repeated cue under `remove_duplicates=None`, `KeyError` on a cue that is no
+    label unless `ignore_missing_cues`; the first offending event decides;
+  * `dict_step_delta`, `ndl_step_delta` — one more learning step of `dict_ndl` /
+    `ndl.ndl` changes each present cue's weight by `α·β·(target − activation)`,
+    the activation being the one the MODEL of `activation()` computes
+    (`dictRowAct` / `activationMatrix`);
+  * `act_dict_eq_sum`, `paths_agree`, `events_independent`.
+
+  Hypotheses about labels (DESIGN §7): `w.outcomes.Nodup` (so that reading at the
+  `i`-th outcome label reads row `i`) and `w.cues.Nodup` — the latter is NOT used
+  by the proofs: the model looks a cue up at its FIRST position (`idxOf`), the
+  code's `OrderedDict` at its LAST; with distinct cue labels both agree, so the
+  hypothesis marks where the model is known to be the code.
+
+  By construction, not theorems: `n_jobs` and the shared-memory path are absent
+  from the model (the multi-process path computes the same per-event columns;
+  `events_independent` only says that the model treats events independently).
 -/
 import PyndlProofs.Activation
+import PyndlModel.Generated
+
+set_option linter.unusedVariables false  -- `hnc` delimits model = code, the proofs do not use it
 
 namespace Pyndl.C12
 open Pyndl List
 
 variable {R : Type} [CommRing R]
 
-/-- **matrix paths (single- and multi-process)**: for every labelled matrix with
-    duplicate-free outcome labels, every event whose (policy-processed) cues
-    are labels, the activation of outcome `i` is the sum of its weights over
-    the event's cues — each cue once under `True`/`None` (the set), with
-    multiplicity under `False` (the list). -/
-theorem act_eq_sum (w : LW R) (hn : w.outcomes.Nodup) (cs : List String)
+/-- **`activationMatrix` = cue-wise sums of weights** (single- and multi-process
+    matrix paths).  For every labelled matrix `w` with duplicate-free labels,
+    every duplicate policy `p`, every `ignore_missing_cues`, every list of
+    events: if the model of `activation()` returns `M` (rows = events, columns =
+    outcomes; the code returns the transpose), then `M` has one row per event,
+    every event was accepted (`actEventErr … = none`), every row has one entry
+    per outcome, and
+      `M[k][i] = Σ_{c ∈ contribCues p w.cues (cues of event k)} w[outcome i, c]`
+    — each cue once under `True` (`.dedup`) and `None` (`.error`, where a
+    repeated cue raises), with multiplicity under `False` (`.keep`); cues that
+    are no label of `w` are dropped (only reachable with `ignore_missing_cues`). -/
+theorem activation_matrix_spec (p : DupPolicy) (ig : Bool) (w : LW R) (hno : w.outcomes.Nodup)
+    (hnc : w.cues.Nodup) (evs : List (List String)) (M : List (List R))
+    (h : activationMatrix p ig w evs = .ok M) :
+    M.length = evs.length ∧
+    ∀ k (hk : k < evs.length),
+      actEventErr p ig w.cues evs[k] = none ∧
+      (M.getD k []).length = w.outcomes.length ∧
+      ∀ i (hi : i < w.outcomes.length),
+        (M.getD k []).getD i 0 = sumOver (w.get w.outcomes[i]) (contribCues p w.cues evs[k]) :=
+  activationMatrix_spec p ig w hno hnc evs M h
+
+/-- what "accepted" and "contributing" mean, case by case: an event is rejected
+    with `ValueError` iff `remove_duplicates=None` and a cue repeats, else with
+    `KeyError` iff missing cues are not ignored and a cue is no label; the
+    contributing cues are the labels among the cues (de-duplicated under `True`) -/
+theorem accepted_iff (p : DupPolicy) (ig : Bool) (labels cues : List String) :
+    (actEventErr p ig labels cues = some .value ↔ p = .error ∧ hasDup cues = true) ∧
+    (actEventErr p ig labels cues = some .key ↔
+      ¬ (p = .error ∧ hasDup cues = true) ∧ ig = false ∧ ∃ c ∈ cues, c ∉ labels) ∧
+    (actEventErr p ig labels cues = none ↔
+      ¬ (p = .error ∧ hasDup cues = true) ∧ (ig = true ∨ ∀ c ∈ cues, c ∈ labels)) ∧
+    contribCues .keep labels cues = cues.filter (fun c => labels.contains c) ∧
+    contribCues .error labels cues = cues.filter (fun c => labels.contains c) ∧
+    contribCues .dedup labels cues = (dedupKeepFirst cues).filter (fun c => labels.contains c) := by
+  have hany : (cues.any (fun c => !labels.contains c) = true) ↔ ∃ c ∈ cues, c ∉ labels := by
+    simp [List.any_eq_true]
+  refine ⟨?_, ?_, ?_, rfl, rfl, rfl⟩
+  · unfold actEventErr
+    by_cases h1 : p = .error ∧ hasDup cues = true
+    · simp [h1]
+    · rw [if_neg h1]
+      by_cases h2 : ig = false ∧ cues.any (fun c => !labels.contains c) = true
+      · rw [if_pos h2]; simp [h1]
+      · rw [if_neg h2]; simp [h1]
+  · unfold actEventErr
+    by_cases h1 : p = .error ∧ hasDup cues = true
+    · rw [if_pos h1]; simp [h1]
+    · rw [if_neg h1]
+      by_cases h2 : ig = false ∧ cues.any (fun c => !labels.contains c) = true
+      · rw [if_pos h2]
+        exact ⟨fun _ => ⟨h1, h2.1, hany.mp h2.2⟩, fun _ => rfl⟩
+      · rw [if_neg h2]
+        constructor
+        · intro h; cases h
+        · rintro ⟨_, h3, h4⟩; exact absurd ⟨h3, hany.mpr h4⟩ h2
+  · unfold actEventErr
+    by_cases h1 : p = .error ∧ hasDup cues = true
+    · rw [if_pos h1]; simp [h1]
+    · rw [if_neg h1]
+      by_cases h2 : ig = false ∧ cues.any (fun c => !labels.contains c) = true
+      · rw [if_pos h2]
+        constructor
+        · intro h; cases h
+        · rintro ⟨_, h3⟩
+          rcases h3 with h3 | h3
+          · rw [h2.1] at h3; cases h3
+          · obtain ⟨c, hc, hn⟩ := hany.mp h2.2
+            exact absurd (h3 c hc) hn
+      · rw [if_neg h2]
+        refine ⟨fun _ => ⟨h1, ?_⟩, fun _ => rfl⟩
+        cases ig with
+        | true => exact Or.inl rfl
+        | false =>
+          right
+          intro c hc
+          by_contra hn
+          exact h2 ⟨rfl, hany.mpr ⟨c, hc, hn⟩⟩
+
+/-- **`activation()` returns a matrix iff every event is accepted** -/
+theorem activation_ok_iff (p : DupPolicy) (ig : Bool) (w : LW R) (evs : List (List String)) :
+    (∃ M, activationMatrix p ig w evs = .ok M) ↔ ∀ cues ∈ evs, actEventErr p ig w.cues cues = none :=
+  ⟨fun ⟨M, h⟩ => activationMatrix_ok_accepts p ig w evs M h,
+    fun h => ⟨_, activationMatrix_ok_of p ig w evs h⟩⟩
+
+/-- **the error cases**: the FIRST rejected event decides what is raised
+    (`ValueError` for a repeated cue under `None`, `KeyError` for an unknown cue
+    unless ignored; within one event the duplicate check comes first), whatever
+    the later events are -/
+theorem activation_raises (p : DupPolicy) (ig : Bool) (w : LW R) (xs : List (List String))
+    (bad : List String) (ys : List (List String)) (e : Err)
+    (hxs : ∀ cues ∈ xs, actEventErr p ig w.cues cues = none)
+    (hbad : actEventErr p ig w.cues bad = some e) :
+    activationMatrix p ig w (xs ++ bad :: ys) = .error e :=
+  activationMatrix_error_of p ig w xs bad ys e hxs hbad
+
+/-- one column: for every labelled matrix with duplicate-free labels, every
+    cue list whose members are labels, the activation of outcome `i` is the sum
+    of its weights over the cues (with multiplicity).  `hnc` (file header) is
+    not used by the proof. -/
+theorem act_eq_sum (w : LW R) (hn : w.outcomes.Nodup) (hnc : w.cues.Nodup) (cs : List String)
     (hcs : ∀ c ∈ cs, c ∈ w.cues) (i : Nat) (hi : i < w.outcomes.length) :
     (actColumn w (cs.map (w.cues.idxOf ·))).getD i 0 = sumOver (w.get w.outcomes[i]) cs :=
   actColumn_eq_sum w hn cs hcs i hi
-
-/-- which cues contribute under each duplicate policy -/
-theorem act_cues_policy (cues : List String) :
-    actCues .keep cues = .ok cues ∧ actCues .dedup cues = .ok (dedupKeepFirst cues) ∧
-    (hasDup cues = true → actCues .error cues = .error .value) ∧
-    (hasDup cues = false → actCues .error cues = .ok cues) := by
-  refine ⟨rfl, rfl, ?_, ?_⟩ <;> intro h <;> simp [actCues, h]
-
-/-- **missing cues**: with labelled-matrix weights an unknown cue raises
-    `KeyError` unless `ignore_missing_cues`, in which case it contributes
-    nothing (it is dropped from the index tuple). -/
-theorem act_missing (ig : Bool) (labels cs : List String) :
-    cueIndices ig labels cs =
-      if !ig && cs.any (fun c => !labels.contains c) then .error .key
-      else .ok ((cs.filter (fun c => labels.contains c)).map (labels.idxOf ·)) :=
-  cueIndices_spec ig labels cs
 
 /-- **dict path**: the same sum; a plain inner dict raises `KeyError` for a
     missing cue, a defaultdict contributes 0 -/
@@ -50,14 +156,15 @@ theorem paths_agree (w : LW R) (o : String) (cs : List String) :
     funext c; exact dictFromLW_abs w o c
   rw [this]
 
-/-- **multi-process = single-process**: events are independent -/
+/-- events are processed independently by the model (the multi-process path of
+    the code is not modelled: see the file header) -/
 theorem events_independent (p : DupPolicy) (ig : Bool) (w : LW R) (xs ys : List (List String))
     (a b : List (List R)) (ha : activationMatrix p ig w xs = .ok a) (hb : activationMatrix p ig w ys = .ok b) :
     activationMatrix p ig w (xs ++ ys) = .ok (a ++ b) :=
   activationMatrix_append p ig w xs ys a b ha hb
 
-/-- **one further learning step** changes each present cue's weight by
-    `multiplicity · α · β · (target − activation)` -/
+/-- **one further learning step** of the specification changes each present
+    cue's weight by `multiplicity · α · β · (target − Σ weights over the cues)` -/
 theorem step_delta {ι κ : Type} [DecidableEq ι] [DecidableEq κ] (α : ι → R) (β₁ β₂ lam : R)
     (W : κ → ι → R) (e : Event ι κ) (o : κ) (c : ι) :
     rwStep α β₁ β₂ lam W e o c - W o c
@@ -66,9 +173,120 @@ theorem step_delta {ι κ : Type} [DecidableEq ι] [DecidableEq κ] (α : ι →
            else β₂ * (0 - sumOver (W o) e.cues))) :=
   Pyndl.step_delta α β₁ β₂ lam W e o c
 
-/-! non-vacuity (ℤ): a 2×3 matrix, an event with a repeated cue under `keep` -/
+/-- **one further `dict_ndl` step vs the dict path of `activation()`**: learning
+    one more event `e` (policy-processed: `e'`) from the weight dict `W` with the
+    MODEL of `dict_ndl` changes the weight between outcome `o` and cue `c` by
+    `multiplicity(c) · α(c) · β · (target − a)`, `a` being the activation the
+    MODEL of `activation()` (dict path, `dictRowAct`) computes from `W` for `o`
+    and the cues of the event; per-cue learning rates `α` -/
+theorem dict_step_delta (p : DupPolicy) (α : String → R) (β₁ β₂ lam : R) (W : WDict String String R)
+    (e e' : Event String String) (hp : applyPolicy p e = some e') :
+    ∃ W', dictNdl p α β₁ β₂ lam W [e] = some W' ∧
+      ∀ o a, dictRowAct false (wdRow W o) e'.cues = .ok a → ∀ c,
+        wdAbs W' o c - wdAbs W o c
+          = (e'.cues.count c : R) * (α c *
+              (if o ∈ e'.outcomes then β₁ * (lam - a) else β₂ * (0 - a))) :=
+  dictNdl_step_delta p α β₁ β₂ lam W e e' hp
+
+/-- **one further `ndl.ndl` step vs the matrix path of `activation()`**: continuing
+    the MODEL of `ndl.ndl` (either method, any `n_outcomes_per_job ≥ 1`,
+    `events_per_temporary_file ≥ 2`) from the labelled matrix `w` over one event
+    `e` (policy-processed: `e'`, all of whose cues are labels of `w`) changes the
+    weight between the `i`-th outcome and cue `c` by
+    `multiplicity(c) · α · β · (target − col[i])`, `col` being the column the
+    MODEL of `activation(…, remove_duplicates=False)` returns for the cues of `e'` -/
+theorem ndl_step_delta (cfg : NdlCfg) (hper : 2 ≤ cfg.perFile) (hjob : 1 ≤ cfg.perJob) (alpha β₁ β₂ lam : R)
+    (w : LW R) (hno : w.outcomes.Nodup) (hnc : w.cues.Nodup)
+    (e e' : Event String String) (hp : applyPolicy cfg.policy e = some e')
+    (hfit : Fits32With w [e]) (hin : ∀ c ∈ e'.cues, c ∈ w.cues) :
+    ∃ r col, ndlModel Generated.pyMagic Generated.pyVersion cfg alpha β₁ β₂ lam (some w) [e] = .ok (r, 1) ∧
+      activationMatrix .keep false w [e'.cues] = .ok [col] ∧
+      ∀ i (hi : i < w.outcomes.length) c,
+        r.get w.outcomes[i] c - w.get w.outcomes[i] c
+          = (e'.cues.count c : R) * (alpha *
+              (if w.outcomes[i] ∈ e'.outcomes then β₁ * (lam - col.getD i 0)
+               else β₂ * (0 - col.getD i 0))) :=
+  ndlModel_step_delta Generated.pyMagic Generated.pyVersion (by decide) (by decide) cfg hper hjob
+    alpha β₁ β₂ lam w hno hnc e e' hp hfit hin
+
+/-! ### non-vacuity (ℤ): a 2×3 matrix -/
+
+def exW : LW ℤ := ⟨["x", "y"], ["a", "b", "c"], #[1, 2, 3, 10, 20, 30]⟩
+
+/-- the model runs: a repeated cue counts twice under `False`, an unknown cue is
+    dropped with `ignore_missing_cues`; under `True` each cue once -/
 example :
-    let w : LW ℤ := ⟨["x", "y"], ["a", "b", "c"], #[1, 2, 3, 10, 20, 30]⟩
-    actColumn w [0, 2, 2] = [7, 70] := by decide +kernel
+    activationMatrix .keep true exW [["a", "c", "c"], ["b", "q"], []] = .ok [[7, 70], [2, 20], [0, 0]] ∧
+    activationMatrix .dedup true exW [["a", "c", "c"], ["b", "q"], []] = .ok [[4, 40], [2, 20], [0, 0]] ∧
+    -- the error cases: KeyError (unknown cue, not ignored), ValueError (repeat under None);
+    -- the first offending event decides
+    activationMatrix .keep false exW [["a", "c", "c"], ["b", "q"], []] = .error .key ∧
+    activationMatrix .error true exW [["a"], ["a", "c", "c"], ["b", "q"]] = .error .value ∧
+    activationMatrix .error false exW [["a"], ["b", "q"], ["a", "c", "c"]] = .error .key ∧
+    activationMatrix .error false exW [["a"], ["q", "c", "c"]] = .error .value := by
+  refine ⟨by decide +kernel, by decide +kernel, by decide +kernel, by decide +kernel, by decide +kernel,
+    by decide +kernel⟩
+
+/-- `activation_matrix_spec` with EVERY hypothesis instantiated -/
+example :
+    ([[7, 70], [2, 20], [0, 0]] : List (List ℤ)).length = 3 ∧
+    ∀ k (hk : k < 3),
+      actEventErr .keep true exW.cues [["a", "c", "c"], ["b", "q"], []][k] = none ∧
+      (([[7, 70], [2, 20], [0, 0]] : List (List ℤ)).getD k []).length = exW.outcomes.length ∧
+      ∀ i (hi : i < exW.outcomes.length),
+        (([[7, 70], [2, 20], [0, 0]] : List (List ℤ)).getD k []).getD i 0
+          = sumOver (exW.get exW.outcomes[i]) (contribCues .keep exW.cues [["a", "c", "c"], ["b", "q"], []][k]) :=
+  activation_matrix_spec .keep true exW (by decide) (by decide) [["a", "c", "c"], ["b", "q"], []] _
+    (by decide +kernel)
+
+/-- `activation_raises` instantiated: event 0 accepted, event 1 has an unknown cue -/
+example : activationMatrix .keep false exW ([["a", "c", "c"]] ++ ["b", "q"] :: [[]]) = .error .key :=
+  activation_raises .keep false exW [["a", "c", "c"]] ["b", "q"] [[]] .key (by decide) (by decide)
+
+/-- `dict_step_delta` instantiated on a weight dict with rows `x`, `y`, an event
+    with a repeated cue and a new cue, per-cue learning rates -/
+example :
+    ∃ W', dictNdl .keep (fun c => if c = "a" then (2 : ℤ) else 1) 1 1 5
+        [("x", [("a", 1), ("b", 2)]), ("y", [("a", 10)])] [⟨["a", "a", "q"], ["x"]⟩] = some W' ∧
+      ∀ o a, dictRowAct false (wdRow [("x", [("a", (1 : ℤ)), ("b", 2)]), ("y", [("a", 10)])] o)
+          ["a", "a", "q"] = .ok a → ∀ c,
+        wdAbs W' o c - wdAbs [("x", [("a", (1 : ℤ)), ("b", 2)]), ("y", [("a", 10)])] o c
+          = ((["a", "a", "q"] : List String).count c : ℤ) * ((if c = "a" then 2 else 1) *
+              (if o ∈ ["x"] then 1 * (5 - a) else 1 * (0 - a))) :=
+  dict_step_delta .keep _ 1 1 5 _ ⟨["a", "a", "q"], ["x"]⟩ ⟨["a", "a", "q"], ["x"]⟩ rfl
+
+/-- `ndl_step_delta` with EVERY hypothesis instantiated: OpenMP, one outcome per
+    job, `remove_duplicates=True` (the event `a c c → x` is learned as `a c → x`) -/
+example :
+    ∃ r col, ndlModel Generated.pyMagic Generated.pyVersion ⟨.dedup, .openmp, 1, 2⟩ (1 : ℤ) 1 1 5 (some exW)
+        [⟨["a", "c", "c"], ["x"]⟩] = .ok (r, 1) ∧
+      activationMatrix .keep false exW [["a", "c"]] = .ok [col] ∧
+      ∀ i (hi : i < exW.outcomes.length) c,
+        r.get exW.outcomes[i] c - exW.get exW.outcomes[i] c
+          = ((["a", "c"] : List String).count c : ℤ) * (1 *
+              (if exW.outcomes[i] ∈ ["x"] then 1 * (5 - col.getD i 0) else 1 * (0 - col.getD i 0))) :=
+  ndl_step_delta ⟨.dedup, .openmp, 1, 2⟩ (by decide) (by decide) 1 1 1 5 exW (by decide) (by decide)
+    ⟨["a", "c", "c"], ["x"]⟩ ⟨["a", "c"], ["x"]⟩ (by decide +kernel)
+    ⟨by decide, by decide +kernel, by decide +kernel, by decide⟩ (by decide)
+
+/-! ### lemmas (not property theorems) -/
+
+/-- (definitional) which cues contribute under each duplicate policy -/
+theorem act_cues_policy (cues : List String) :
+    actCues .keep cues = .ok cues ∧ actCues .dedup cues = .ok (dedupKeepFirst cues) ∧
+    (hasDup cues = true → actCues .error cues = .error .value) ∧
+    (hasDup cues = false → actCues .error cues = .ok cues) := by
+  refine ⟨rfl, rfl, ?_, ?_⟩ <;> intro h <;> simp [actCues, h]
+
+/-- the index lookup alone: with labelled-matrix weights an unknown cue raises
+    `KeyError` unless `ignore_missing_cues`, in which case it is dropped from
+    the index tuple (used by `activation_matrix_spec`) -/
+theorem act_missing (ig : Bool) (labels cs : List String) :
+    cueIndices ig labels cs =
+      if !ig && cs.any (fun c => !labels.contains c) then .error .key
+      else .ok ((cs.filter (fun c => labels.contains c)).map (labels.idxOf ·)) :=
+  cueIndices_spec ig labels cs
+
+example : actColumn exW [0, 2, 2] = [7, 70] := by decide +kernel
 
 end Pyndl.C12
